@@ -147,6 +147,15 @@ func limCorpus() []LimCase {
 		{Max: 2, Rate: 20 * m, Ops: []LimOp{{K: "B", C: 1, N: 3}, {K: "B", C: 2, N: 2}, {K: "T", D: h + 11*m}, {K: "B", C: 1, N: 3}, {K: "A", C: 2}}},
 		// 64 simultaneous callers on one bucket
 		{Max: 5, Rate: s, Ops: []LimOp{{K: "B", C: 1, N: 64}, {K: "T", D: 2 * s}, {K: "B", C: 1, N: 64}}},
+		// many full bursts of overlapping callers, each on a client of its own: every one of them is admitted (nobody is turned
+		// away because another caller of the same client happens to be inside the limiter)
+		func() LimCase {
+			c := LimCase{Max: 64, Rate: h}
+			for i := 0; i < 60; i++ {
+				c.Ops = append(c.Ops, LimOp{K: "B", C: 200 + i, N: 64})
+			}
+			return c
+		}(),
 		// a clean-up tick in the middle of an idle gap, at a fractional offset of the refill period: what was waited before it counts
 		{Max: 3, Rate: h, Ops: []LimOp{{K: "B", C: 1, N: 3}, {K: "T", D: h + 30*m}, {K: "T", D: 45 * m}, {K: "B", C: 1, N: 3}}},
 		{Max: 2, Rate: 25 * m, Ops: []LimOp{{K: "B", C: 1, N: 2}, {K: "T", D: 35 * m}, {K: "T", D: 20 * m}, {K: "A", C: 1}, {K: "A", C: 1}, {K: "A", C: 1}}},
@@ -190,10 +199,13 @@ func runLimCase(c LimCase) (coq string, stats map[string]int) {
 		case "B":
 			var wg sync.WaitGroup
 			res := make([]bool, op.N)
+			start := make(chan struct{}) // all callers are released at once: their calls really overlap
 			for i := 0; i < op.N; i++ {
 				wg.Add(1)
-				go func(i int) { defer wg.Done(); res[i] = rl.Allow(limClient(op.C)) }(i)
+				go func(i int) { defer wg.Done(); <-start; res[i] = rl.Allow(limClient(op.C)) }(i)
 			}
+			synctest.Wait()
+			close(start)
 			wg.Wait()
 			adm := 0
 			for _, ok := range res {
